@@ -941,7 +941,7 @@ func (d *driver) history(ops []string) {
 	d.cnt.histories.Add(1)
 	for _, qs := range d.b.queueSizes {
 		if qs != 0 && d.b.smallQueueNeedsRestart && !hasRestart(ops) {
-			// quick tier: with <=2 unanswered requests the hand-off channel can only overflow while no worker
+			// small-queue configurations run with <=2 unanswered requests: the hand-off channel can only overflow while no worker
 			// drains it, i.e. during the recovery of a new process (worker busy + 2 more queued needs 3)
 			continue
 		}
@@ -960,7 +960,8 @@ func hasRestart(ops []string) bool {
 
 // historyCfg: one history under one QueueSize configuration (0 = ample).
 func (d *driver) historyCfg(ops []string, qs int) {
-	holdCrash := d.b.holdCrash && qs == 0 // small-queue configurations: held answers without the crash product
+	// held answers x crash points: ample queue and histories of length <= 4 only (the product dominates the cost)
+	holdCrash := d.b.holdCrash && qs == 0 && len(ops) <= 4
 	maxDrops := d.b.maxDrops
 	if m, ok := d.b.dropsAtLen[len(ops)]; ok {
 		maxDrops = m
@@ -1320,7 +1321,7 @@ func classify(v *report.Violation) {
 
 func tierBounds(thorough bool) bounds {
 	if thorough {
-		return bounds{maxSess: 3, maxLen: 5, maxDrops: 3, dropsAtLen: map[int]int{4: 2, 5: 2}, torn: true, holdCrash: true, queueSizes: []int{0, 1, 2}, budget: 16 * time.Minute}
+		return bounds{maxSess: 3, maxLen: 5, maxDrops: 3, dropsAtLen: map[int]int{4: 2, 5: 2}, torn: true, holdCrash: true, queueSizes: []int{0, 1, 2}, smallQueueNeedsRestart: true, budget: 16 * time.Minute}
 	}
 	return bounds{maxSess: 2, maxLen: 4, maxDrops: 2, dropsAtLen: map[int]int{4: 1}, torn: true, queueSizes: []int{0, 1}, smallQueueNeedsRestart: true, budget: 60 * time.Second}
 }
